@@ -25,11 +25,12 @@ REG = {
         "relevant": ["contains", "guard", "infer-path", "infer-outcome", "detect-path", "relation-missing"],
     },
     "C03": {
-        "modules": ["VProofs.Props.C03", "VProofs.Props.Pandas", "VProofs.Props.Numpy"],
+        "modules": ["VProofs.Props.C03", "VProofs.Props.Pandas", "VProofs.Props.Numpy", "VProofs.Props.PyListRel"],
         "theorems": thms("C03", ["C03_infer_sound", "C03_lands_step", "C03_lands_pandas"])
                     + ["V.Pd.pandas_WF", "V.Pd.outputs_good", "V.Pd.goodB_sound", "V.Pd.built_typeset", "V.PandasProps.C03_pandas", "V.PandasProps.C03_pandas_model",
                        "V.PandasProps.infer_pandas_complete",
-                       "V.Np.numpy_WF", "V.Np.lands_closed_np", "V.NumpyProps.C03_numpy", "V.NumpyProps.C03_numpy_model"],
+                       "V.Np.numpy_WF", "V.Np.lands_closed_np", "V.NumpyProps.C03_numpy", "V.NumpyProps.C03_numpy_model",
+                       "V.PyProps.C03_lands_list"],
         "runners": ["pandas", "numpy", "list", "frame", "api"],
     },
     "C04": {
@@ -67,11 +68,11 @@ REG = {
         "runners": ["engine", "frame", "api"],
     },
     "C06": {
-        "modules": ["VProofs.Props.C06", "VProofs.Props.NumpyMore"],
+        "modules": ["VProofs.Props.C06", "VProofs.Props.NumpyMore", "VProofs.Props.PyListRel"],
         "theorems": thms("C06", ["C06_shape", "C06_lossless_float_integer", "C06_lossless_complex_float",
                                  "C06_lossless_datetime_date", "oks_length", "C06_shape_infer", "C06_nulls_step"]) + ["V.Pd.nulls_pandas",
                     "V.NumpyProps.C06_shape_numpy", "V.NumpyProps.C06_witness_F42", "V.NumpyProps.C06_lossless_float_integer_numpy",
-                    "V.NumpyProps.C06_lossless_complex_float_numpy"],
+                    "V.NumpyProps.C06_lossless_complex_float_numpy", "V.PyProps.C06_length_list"],
         "runners": ["pandas", "frame", "family", "numpy", "list", "api"],
         "relevant": ["xform", "infer-data", "guard", "relation-missing"],
     },
